@@ -16,8 +16,11 @@ import (
 
 	"go.step.sm/crypto/jose"
 
+	"github.com/smallstep/certificates/authority/provisioner"
+
 	"github.com/smallstep/certificates/acme"
 	env "verif/harness/cmd/c12/acmeenv"
+	srv "verif/harness/cmd/c12/acmeserved"
 	c "verif/harness/common"
 )
 
@@ -33,35 +36,80 @@ type world struct {
 	serial    int
 	lastFresh string
 	race      *raceDB
+	// served: the environment is the real server (package acmeserved); pids are its provisioner ids by name
+	served *srv.Served
+	held   string // a nonce minted earlier (before a reload or restart), used by Nonce=held
+}
+
+// pid is the id of the i-th provisioner as the serving authority knows it.
+func (w *world) pid(i int) string {
+	if w.served != nil {
+		return w.served.PIDs[provs[i].Name]
+	}
+	return provs[i].ID
+}
+
+// otherProv is a provisioner of another type (JWK) configured next to the ACME ones: Prov=3 names it in the URL
+const otherProvName = "pj"
+
+func allProvs() []env.ProvSpec {
+	jwk, err := jose.GenerateJWK("EC", "P-256", "ES256", "sig", "", 0)
+	if err != nil {
+		return provs
+	}
+	pub := jwk.Public()
+	return append(append([]env.ProvSpec{}, provs...), env.ProvSpec{Name: otherProvName,
+		Other: &provisioner.JWK{Type: "JWK", Name: otherProvName, Key: &pub}})
 }
 
 func newWorld() (*world, error) {
 	w := &world{}
-	e, err := env.New(provs, func(d acme.DB) acme.DB { w.race = &raceDB{DB: d}; return w.race })
+	e, err := env.New(allProvs(), func(d acme.DB) acme.DB { w.race = &raceDB{DB: d}; return w.race })
 	if err != nil {
 		return nil, err
 	}
 	w.e = e
+	if err := w.populate(); err != nil {
+		return nil, err
+	}
+	return w, nil
+}
+
+// newServedWorld is the same world behind the real server (ca.New + Run on loopback).
+func newServedWorld() (*world, error) {
+	s, err := srv.New(allProvs())
+	if err != nil {
+		return nil, err
+	}
+	w := &world{e: s.Env, served: s}
+	if err := w.populate(); err != nil {
+		return nil, err
+	}
+	return w, nil
+}
+
+func (w *world) populate() error {
+	e := w.e
 	kinds := []string{"es256", "rsa2048", "es384"}
 	pr := []string{"p0", "p0", "p1"}
 	for i := range w.own {
 		a, err := e.NewAccount(pr[i], env.NewKey(kinds[i], 0))
 		if err != nil {
 			e.Close()
-			return nil, err
+			return err
 		}
 		o := &owner{acct: a}
 		if o.valid, err = e.Issue(a, fmt.Sprintf("v%d.example.test", i)); err != nil {
 			e.Close()
-			return nil, err
+			return err
 		}
 		if o.pending, err = e.NewOrder(a, fmt.Sprintf("p%d.example.test", i)); err != nil {
 			e.Close()
-			return nil, err
+			return err
 		}
 		w.own[i] = o
 	}
-	return w, nil
+	return nil
 }
 
 // reissue gives owner i a fresh certificate (after its old one was revoked).
@@ -145,17 +193,24 @@ func (w *world) run(k *Case) (line, impl string) {
 	provName := "nope"
 	provID := ""
 	if k.Prov >= 0 && k.Prov < len(provs) {
-		provName, provID = provs[k.Prov].Name, provs[k.Prov].ID
+		provName, provID = provs[k.Prov].Name, w.pid(k.Prov)
 		if k.ProvSwap {
 			// the operator removed this provisioner and created another one with the SAME NAME:
 			// the object the authority serves under the name now has a different id (accounts,
 			// kids and stored locations contain only the name). Restored after the request.
 			po := e.Provs[provName]
+			if po == nil {
+				return "", ""
+			}
 			old := po.ID
 			po.ID = old + "-recreated"
 			provID = po.ID
 			defer func() { po.ID = old }()
 		}
+	}
+	pacme := true
+	if k.Prov == 3 {
+		provName, provID, pacme = otherProvName, "jwk/"+otherProvName, false
 	}
 	var ow *owner
 	if k.Own >= 0 && k.Own <= 2 {
@@ -248,6 +303,11 @@ func (w *world) run(k *Case) (line, impl string) {
 		"finalize": "/{provisionerID}/order/{ordID}/finalize", "authz": "/{provisionerID}/authz/{authzID}",
 		"challenge": "/{provisionerID}/challenge/{authzID}/{chID}", "cert": "/{provisionerID}/certificate/{certID}",
 		"revoke": "/{provisionerID}/revoke-cert"}[k.Route]
+
+	if k.Mount2 {
+		// ca/ca.go mounts the same routes a second time under /2.0/acme; links are built with /acme either way
+		p = "/2.0" + p
+	}
 
 	// ---- payload
 	var payload []byte
@@ -380,6 +440,12 @@ func (w *world) run(k *Case) (line, impl string) {
 		nonce = e.Nonce(provs[0].Name)
 	case "otherprov":
 		nonce = e.Nonce(provs[1].Name)
+	case "held":
+		// a nonce minted earlier, possibly by the server as it was before a reload or a restart
+		if w.held == "" {
+			w.held = e.Nonce(provs[0].Name)
+		}
+		nonce, w.held = w.held, ""
 	case "reused":
 		nonce = e.Nonce(provs[0].Name)
 		a0 := w.own[0].acct
@@ -422,6 +488,13 @@ func (w *world) run(k *Case) (line, impl string) {
 		prot["url"] = env.URL(env.Path(provName, "new-order")) + "x"
 	case "nonstring":
 		prot["url"] = 7
+	case "mount":
+		// the same route under the other mount point of the ACME routes
+		if k.Mount2 {
+			prot["url"] = env.URL(p[len("/2.0"):])
+		} else {
+			prot["url"] = env.URL("/2.0" + p)
+		}
 	case "case-id", "case-path", "case-scheme", "case-host":
 		// the request URL with the letter case of one part flipped: ids and provisioner names are
 		// case-sensitive, and the comparison in validateJWS is exact
@@ -672,13 +745,22 @@ func (w *world) run(k *Case) (line, impl string) {
 		if x, err := e.RealDB.GetCertificateBySerial(ctx, revSerial); err == nil {
 			csame = x.Leaf != nil && bytes.Equal(x.Leaf.Raw, subCert.Raw)
 			tgtN = in.id("res:" + x.ID)
-			rv, _ := e.Auth.IsRevoked(revSerial)
+			rv := e.IsRevoked(revSerial)
 			certF = fmt.Sprintf("%d:%d:%s", tgtN, in.id("acc:"+x.AccountID), c.B(rv))
 		}
 	}
 
 	// ---- the request
+	pre := 0
+	if k.Legacy && e.Legacy != nil {
+		e.UseLegacy, e.Prereq = true, k.Pre
+		pre = k.Pre
+	}
 	rec := e.DoCT("POST", p, ct, body)
+	e.UseLegacy, e.Prereq = false, 0
+	if srv.Failed(rec) {
+		return "", "" // the server could not be reached: no observation
+	}
 	cls := env.Class(rec)
 	verdict := cls
 	if rec.Code < 300 || (k.Route == "finalize" && strings.HasSuffix(cls, ":orderNotReady")) {
@@ -695,7 +777,7 @@ func (w *world) run(k *Case) (line, impl string) {
 	}
 	revAfter := "-"
 	if k.Route == "revoke" && revSerial != "" && certF != "-" {
-		rv, _ := e.Auth.IsRevoked(revSerial)
+		rv := e.IsRevoked(revSerial)
 		revAfter = c.B(rv)
 		if rv && k.Own >= 0 && k.Own <= 2 && w.own[k.Own].valid == revCert {
 			w.reissue(k.Own)
@@ -720,9 +802,9 @@ func (w *world) run(k *Case) (line, impl string) {
 	cpath := strings.Contains(reqURL, "/"+provName+"/certificate/")
 	f["parsed"] = c.B(isParsed)
 	f["fresh"] = fmt.Sprint(in.id("nonce:" + fresh + "#fresh"))
-	line = fmt.Sprintf("req v=2 m=POST p=%s pid=%s pname=%s pknown=%s url=%s ct=%s cpath=%s parsed=%s fresh=%s tgt=%d tgt2=%d plok=%s deact=%s only=%s ckey=%d csame=%s attest=%s attp=%d "+
+	line = fmt.Sprintf("req v=2 m=POST p=%s pid=%s pname=%s pknown=%s url=%s ct=%s cpath=%s parsed=%s fresh=%s tgt=%d tgt2=%d plok=%s deact=%s only=%s ckey=%d csame=%s attest=%s attp=%d pre=%d pacme=%s "+
 		"ns=%d ue=%s ac=%s alg=%d es=%s short=%d jwk=%s kid=%d kb=%d kpre=%s nonce=%d jurl=%s ver=%s pe=%s nl=%s accs=%s ord=%s az=%s ch=%s cert=%s",
-		f["p"], f["pid"], f["pname"], f["pknown"], f["url"], f["ct"], c.B(cpath), f["parsed"], f["fresh"], tgtN, tgt2N, c.B(plok), c.B(deact), c.B(only), ckey, c.B(csame), c.B(attestF), attp,
+		f["p"], f["pid"], f["pname"], f["pknown"], f["url"], f["ct"], c.B(cpath), f["parsed"], f["fresh"], tgtN, tgt2N, c.B(plok), c.B(deact), c.B(only), ckey, c.B(csame), c.B(attestF), attp, pre, c.B(pacme),
 		ns, c.B(ue), ac, algN, c.B(es), short, jwkF, kidN, kbN, c.B(kpre), nonceN, jurl, verF, c.B(pe), c.B(nlBefore),
 		c.List(accL), ordF, azF, chF, certF)
 	js, _ := json.Marshal(k)
